@@ -34,7 +34,7 @@ Bind(f, name, v) == [f EXCEPT !.obj = (name :> v) @@ f.obj]
 Rest(f) == [f EXCEPT !.code = Tail(f.code)]
 
 SInit(code, cls, given, san0, fuel0) ==
-  /\ w = [bytes |-> <<>>, san |-> san0]
+  /\ w = [bytes |-> <<>>, san |-> san0, log |-> <<>>]       \* log: the sanitisation mode at every primitive writer call so far
   /\ stack = <<[code |-> code, saved |-> san0, start |-> 0, obj |-> [_t |-> cls], given |-> given, inch |-> FALSE,
                 missing |-> FALSE, lens |-> [x \in {} |-> 0], dest |-> [k |-> "root"], cls |-> cls]>>
   /\ status = "running" /\ exc = "" /\ fuel = fuel0 /\ result = NoneV
@@ -60,10 +60,11 @@ Pick(f, name, dom) == IF IsFree(f.given) THEN dom ELSE IF name \in DOMAIN f.give
 \* ---- primitive writes (each consumes fuel) ----
 \* r = [w, exc]; a write that is refused or an injected fault starts raising
 AfterWrite(r, f) ==
-  IF fuel = 0 THEN /\ status' = "raising" /\ exc' = "Fault" /\ UNCHANGED <<w, result>> /\ stack' = WithTop(f) /\ fuel' = -1
+  LET logged == Append(w.log, w.san) IN        \* the call is made (or attempted) in the current mode
+  IF fuel = 0 THEN /\ status' = "raising" /\ exc' = "Fault" /\ w' = [w EXCEPT !.log = logged] /\ UNCHANGED result /\ stack' = WithTop(f) /\ fuel' = -1
   ELSE /\ fuel' = (IF fuel > 0 THEN fuel - 1 ELSE fuel)
-       /\ IF r.exc = "" THEN w' = r.w /\ stack' = WithTop(f) /\ UNCHANGED <<status, exc, result>>
-          ELSE status' = "raising" /\ exc' = r.exc /\ stack' = WithTop(f) /\ UNCHANGED <<w, result>>
+       /\ IF r.exc = "" THEN w' = [r.w EXCEPT !.log = logged] /\ stack' = WithTop(f) /\ UNCHANGED <<status, exc, result>>
+          ELSE status' = "raising" /\ exc' = r.exc /\ stack' = WithTop(f) /\ w' = [w EXCEPT !.log = logged] /\ UNCHANGED result
 Raise(e, f) == status' = "raising" /\ exc' = e /\ stack' = WithTop(f) /\ UNCHANGED <<w, fuel, result>>
 Skip(f) == stack' = WithTop(f) /\ UNCHANGED <<w, status, exc, fuel, result>>
 
